@@ -70,7 +70,11 @@ def dListener (j : Json) : Except String Listener := do
            pure ({ group := ← str c "group", kind := ← str c "kind", hasNs := ← bool c "hasNs", ns := ← str c "ns", name := ← str c "name" } : CertRef)),
          nsFrom := ← str j "from", hasSel := ← bool j "hasSel", selMatch := ← strMap j "selMatch", selExprs := ← nat j "selExprs",
          hasKinds := ← bool j "hasKinds",
-         kinds := ← (← arr j "kinds").mapM (fun c => do pure (⟨← str c "group", ← str c "kind"⟩ : KindRef)) }
+         kinds := ← (← arr j "kinds").mapM (fun c => do pure (⟨← str c "group", ← str c "kind"⟩ : KindRef)),
+         selReqs := ← (match j.getObjVal? "selReqs" with
+           | .ok (.arr a) => a.toList.mapM (fun c => do
+               pure ({ key := ← str c "key", op := ← str c "op", values := ← strs c "values" } : SelReq))
+           | _ => pure []) }
 
 def dScenario (j : Json) : Except String Scenario := do
   pure { cls := ← str j "class", ctlr := ← str j "ctlr",
